@@ -26,6 +26,8 @@ def cases(tier, rng):
     out += list(fqgen.exhaustive(2, 5 if tier == "quick" else 6, "exh2"))
     out += list(fqgen.exhaustive(3, 4 if tier == "quick" else 5, "exh3"))
     out += list(fqgen.windows("window", tier != "quick"))
+    out += list(fqgen.exhaustive(2, 4 if tier == "quick" else 5, "exh2-budget", extra=["exhaust"]))
+    out += list(fqgen.exhaust_cases(rng, 300 if tier == "quick" else 4000, "budget"))
     out += list(fqgen.random_cases(rng, 1500 if tier == "quick" else 20000, "random"))
     # socket level: the recv filters of the six receiving socket types on top of the queue — seeded random
     # schedules of real sockets over scripted pipes (partial reads, peers attached mid-way, EOF, errors); the
@@ -39,6 +41,8 @@ def cases(tier, rng):
 def oracle(case, lines):
     if any(l.startswith(("PANIC", "ABORT", "TIMEOUT")) for l in lines):
         return "the fair queue panicked"
+    if any(l.startswith("LIVELOCK") for l in lines):
+        return "poll_next never returned (budget exhausted: the receiver re-polled self-waking streams for ever) — nothing is delivered any more"
     if case.engine != "fq":
         return None  # socket-level random schedules: exact prediction by the World model is the check
     a = fqgen.analyse(case, lines)
@@ -66,4 +70,6 @@ def nontrivial(case, lines):
 
 
 def signature(case, ml, il, o):
+    if any(l.startswith("LIVELOCK") for l in (il or [])):
+        return "budget-livelock"
     return case.name.split("#")[0]
